@@ -5,8 +5,13 @@ from pv import obs_regex as R
 
 def run(report):
     add_obs(report, R.cookie_obligations)
-    verify_keys(report, ['parso.utils.python_bytes_to_unicode'])
-    report.assume("A-BUILTIN: str(bytes, encoding, errors), str.splitlines(True) and re.split are trusted; the two "
+    verify_keys(report, ['parso.utils.python_bytes_to_unicode', 'parso.utils.python_bytes_to_unicode#bytes',
+                         'parso.utils.python_bytes_to_unicode.detect_encoding'])
+    report.assume("bytes input: which codec is used (BOM first, then the PEP 263 declaration, then the caller's default) and the "
+                  "fallback for an unknown codec name are proved with decode(bytes, codec, errors) standing for the external codec "
+                  "machinery and has_cookie / cookie_name for the PEP 263 reading; that the regex in detect_encoding computes exactly "
+                  "that reading is imported from the RegLan obligations re:utils.cookie:* (bytes are modelled one character per byte)",
+                  "A-BUILTIN: str(bytes, encoding, errors), str.splitlines(True) and re.split are trusted; the two "
                   "split_lines modes are decided by the exhaustive bounded stand-in, not by a proof",
                   "cookie obligations are stated for sources without CR (CPython's readline splits on LF only); reference "
                   "patterns cookie_re/blank_re are taken from the running CPython's tokenize module",
